@@ -973,7 +973,12 @@ def g5v_cleanup_agreement(prog):
                 if e['name'] != 'free_components' or e['args'][1] != ('c', good):
                     once('different-counters', e['ln'], 'component columns are freed with row count %s after %d completely read rows (double drop or leak)' % (pathsem.tstr(e['args'][1]), good))
             idv = [e for e in vecs if len(e['args']) == 3]
-            if len(idv) != 1:
+            # ... or the reader owns the identifier Vec (kept in ManuallyDrop while rows are read) and releases that
+            owned = p.calls(lambda e: e['name'] == 'into_inner' and 'ManuallyDrop' in e['path'] and any(is_adt(a_, 'alloc::vec::Vec') and ty_mentions(a_, lambda n: is_adt(n, 'entity::identifier::Identifier')) for a_ in e['f'].get('args', [])))
+            owned += p.calls(lambda e: e['name'] == 'drop' and 'ManuallyDrop' in e['path'] and any(ty_mentions(a_, lambda n: is_adt(n, 'entity::identifier::Identifier')) for a_ in e['f'].get('args', [])))
+            if not idv and len(owned) == 1:
+                continue
+            if len(idv) != 1 or owned:
                 once('error-exit-identifiers', None, 'an error exit of the row reader rebuilds the identifier column %d times for dropping (must be exactly once)' % len(idv))
             for e in idv:
                 if e['args'][1] != ('c', good):
